@@ -14,16 +14,19 @@ import builtins, codecs, errno, gc, io, json, os, shutil, sys, time, traceback
 import boot
 
 TABLES = ['T17']
-RULE = ('cases = (caller in raw AtomicFile API / users / channels / networks / ignores / userdata (world.flush) / registry.close / '
+RULE = ('cases = (caller in raw AtomicFile API / users / channels / networks / ignores / userdata (world.flush) / registry.close / plugins.ChannelUserDB.flush / '
         'FlatfileMapping.vacuum) x (old content absent/empty/shorter/longer/equal/larger-than-buffer) x (tmpDir none / same fs / other fs '
-        '(os.rename made to fail with EXDEV as the kernel does; a real second file system (/dev/shm) is used too when present)) x '
+        '(os.rename made to fail with EXDEV as the kernel does; a real second file system (/dev/shm) is used too when present) / the production '
+        'defaults (tmpDir and backupDir are the registry values of conf.py, forced at every AtomicFile())) x '
         '(backupDir none / dir / /dev/null) x (target a regular file / a symbolic link conf/x -> ../store/x, dangling on a first save) x flags; every case is run once uncrashed with the I/O primitives wrapped (effect list '
         'compared with the model) and then once per crash point (before and after every effect; kill by os._exit in a forked child), '
         'the disk being compared with the model prediction and with the property.  Second death mode: at the same points an exception is '
         'RAISED (SystemExit as from the SIGTERM handler at every point, KeyboardInterrupt at a fifth of them (half in the thorough tier), '
         'an OSError at the writes/close of the temp file), the stack unwinds through the real finally/except/with blocks, the AtomicFile '
         'object is collected (__del__), the child exits normally; effect sequence and disk are compared with the model (prefix + '
-        'unwinding) and with the property.  one evaluation = one (case, fault point, death mode); '
+        'unwinding) and with the property.  dbi.FlatfileMapping.add (in place, no AtomicFile): a kill before/after every method call on its file '
+        'object, then a restart and one more add(): records old or new and no id handed out twice; the sequence of on-disk states is '
+        'compared with the model.  one evaluation = one (case, fault point, death mode); '
         'non-trivial = distinct (case, fault point, mode) with at least one effect executed')
 TRUSTED = ['the file-system model itself (POSIX contract, not Limnoria code): rename is an atomic replace, append extends, open(w) truncates, '
            'open(a) creates an empty file iff absent, data handed to the kernel survives process death; power loss / fsync ordering is out of scope',
@@ -54,7 +57,19 @@ LEVEL_TEXT = ('Coq theorems over an executable effect-list model of utils.file.A
               'model is tied to the source by regenerated naming constants/defaults and by fault enumeration on the real code: real effect '
               'sequence and on-disk bytes after a kill at every effect boundary are compared with the model for all callers.')
 LEVEL_NOTE = ('Trusted: Coq kernel, gen_tables.py, extraction + OCaml driver, the Python harness (I/O wrappers, fork/kill machinery), the POSIX '
-              'file-system contract as modelled; loaders (C15/C16) are exercised, not proved, here.')
+              'file-system contract as modelled.  Modelled, not verified: all Python code; the loader models are those of C16/C15 (validated by '
+              'those checks), the text decoding of a file is a hypothesis (empty file -> empty text).  NOT modelled / not covered: '
+              '(1) the other in-place writers of dbi.FlatfileMapping -- set() (dash out the old line, then append: a death in between loses the '
+              'record) and remove() -- only add() is modelled and fault-enumerated; ids wider than the header width; '
+              '(2) cdb.Maker / cdb.ReaderWriter (seek/tell on the temp file, the .journal file): the model has append-only temp files, these '
+              'callers are only scanned by the table extractor; (3) the plugin callers Karma.dump, Later._flushNotes, RSS (with-statement) are '
+              'only table-scanned (no close() in finally/except, no swallowed write error), plugins.ChannelUserDB is fault-enumerated; '
+              '(4) durability: no fsync before the rename, so a power loss (not a process death) can still leave an empty or partial new file; '
+              '(5) two threads flushing the same target at once, and backup files of the same second / same basename overwriting each other '
+              '(backups are not part of the property); (6) symbolic links other than a single-level link at the target path; '
+              '(7) errors raised by the backup copy or the permission probe inside close() are covered as unwinding points of the harness, '
+              'their own effects (a partial backup file) only by the effect-list model of the copy; (8) the real mktemp()/clock are replaced '
+              'by fixed inputs in the harness (token uniqueness is an assumption).')
 TECHNIQUE = 'Coq proof (prefix invariants over effect lists) + regenerated tables + fault-enumeration correspondence of the extracted model'
 EXPLANATION = 'C17: effect-list model of src/utils/file.py AtomicFile; theorems in coq/C17/Props.v'
 
@@ -62,7 +77,7 @@ TOKEN = '3f786850e387550fdab836ed7e6dc881de23001b'
 NOW = 1700000000
 XPLACE = '/X'            # canonical name of the tmp dir on the other file system
 WATCH = ('conf/', 'data/', 'tmp/', 'backup/', 'store/', XPLACE + '/')
-CALLERS = ('users', 'channels', 'networks', 'ignores', 'userdata', 'vacuum', 'registry')
+CALLERS = ('users', 'channels', 'networks', 'ignores', 'userdata', 'vacuum', 'registry', 'chanuserdb')
 
 
 # --------------------------------------------------------------------------
@@ -268,6 +283,14 @@ def instrument(rec, inp):
             'backupDir': self.backupDir if self.backupDir is None else rec.canon(self.backupDir),
             'mbis': bool(self.makeBackupIfSmaller), 'aeo': bool(self.allowEmptyOverwrite)})
     ufile.AtomicFile.__init__ = init
+    # which of close()/rollback() the caller really calls (plugins.ChannelUserDB rolls back instead of writing a blank file)
+    for meth in ('close', 'rollback'):
+        def wrap(orig, meth=meth):
+            def f(self, *a, **k):
+                rec.info.setdefault('calls', []).append(meth)
+                return orig(self, *a, **k)
+            return f
+        setattr(ufile.AtomicFile, meth, wrap(getattr(ufile.AtomicFile, meth)))
 
 
 # --------------------------------------------------------------------------
@@ -328,7 +351,27 @@ def build_db(caller, spec, target):
         g.setName('verif')
         g.register('x', registry.String('v%d' % v, 'help'))
         return lambda: registry.close(g, target)
+    if caller == 'chanuserdb':
+        # plugins.ChannelUserDB (Seen, Karma-like per channel/user plugin databases): csv lines through AtomicFile
+        d = _chanuserdb()(target)
+        d.clear()
+        for i in range(n):
+            d['#' + _rec_name(v, i), i if i % 2 else _rec_name(v, i)] = (1600000000 + i, 'said \xe9 "quoted", %d' % v)
+        return d.flush
     raise ValueError(caller)
+
+
+def _chanuserdb():
+    import supybot.plugins as plugins
+
+    class DB(plugins.ChannelUserDB):
+        def serialize(self, v):
+            return list(v)
+
+        def deserialize(self, channel, id, L):
+            (t, text) = L
+            return (float(t), text)
+    return DB
 
 
 def prepare_old(caller, spec, target):
@@ -396,7 +439,8 @@ def loaded_state_here(caller, path, scratch):
         return None, []
     if not os.path.exists(path):
         # no file = the empty database (what every loader starts from when the file cannot be opened)
-        return {'users': '', 'channels': '', 'networks': '', 'ignores': '[]', 'userdata': '[]', 'registry': '[]'}.get(caller, 'absent'), []
+        return {'users': '', 'channels': '', 'networks': '', 'ignores': '[]', 'userdata': '[]', 'registry': '[]',
+                'chanuserdb': '[]'}.get(caller, 'absent'), []
     cp = os.path.join(scratch, 'load_' + os.path.basename(path))
     shutil.copyfile(path, cp)
     opened = []
@@ -428,6 +472,8 @@ def loaded_state_here(caller, path, scratch):
             registry._cache.clear()
             for k, v in saved.items():
                 registry._cache[k] = v
+        elif caller == 'chanuserdb':
+            st = repr(sorted(_chanuserdb()(cp).items(), key=repr))
         elif caller == 'vacuum':
             try:
                 st = repr(list(dbi.FlatfileMapping(cp)))
@@ -445,7 +491,7 @@ def loaded_state_here(caller, path, scratch):
 def target_of(inp):
     c = inp['caller']
     return {'raw': 'conf/raw.db', 'users': 'conf/users.conf', 'channels': 'conf/channels.conf', 'networks': 'conf/networks.conf',
-            'ignores': 'conf/ignores.conf', 'userdata': 'conf/userdata.conf', 'vacuum': 'data/flat.db', 'registry': 'conf/bot.conf'}[c]
+            'ignores': 'conf/ignores.conf', 'userdata': 'conf/userdata.conf', 'vacuum': 'data/flat.db', 'registry': 'conf/bot.conf', 'chanuserdb': 'data/Seen.db'}[c]
 
 
 def link_target(inp):
@@ -455,8 +501,16 @@ def link_target(inp):
 def child_main(inp, crash, xdir, logfd):
     import supybot.utils.file as ufile, supybot.dbi as dbi
     tmp, backup = inp.get('tmp', 'none'), inp.get('backup', 'none')
-    tmpdir = {'none': None, 'same': 'tmp', 'exdev': 'tmp', 'realxdev': xdir}[tmp]
+    tmpdir = {'none': None, 'same': 'tmp', 'exdev': 'tmp', 'realxdev': xdir, 'registry': None}[tmp]
     bdir = {'none': None, 'dir': 'backup', 'devnull': '/dev/null'}[backup]
+    if tmp == 'registry':
+        # the production defaults: AtomicFile.default.tmpDir/backupDir are the registry values themselves (callables,
+        # forced at every AtomicFile(): Directory.__call__ creates the directory, DataFilename puts it under data/)
+        import supybot.conf as conf
+        conf.supybot.directories.data.setValue('data')
+        conf.supybot.directories.data.tmp.setValue('tmp')
+        conf.supybot.directories.backup.setValue('/dev/null' if backup == 'devnull' else 'backup')
+        tmpdir, bdir = conf.supybot.directories.data.tmp, conf.supybot.directories.backup
     rec = Rec(crash, inp.get('chunk', 0), tmp == 'exdev', xdir, logfd)
     target = target_of(inp)
     if rec.mode != 'kill':       # "Exception ignored in __del__" of a half-constructed object goes to stderr
@@ -664,7 +718,7 @@ def model_case(inp, log):
     """wire input of the model for one recorded session"""
     s = log['info']['sessions'][0]
     tmp = inp.get('tmp', 'none')
-    tmpdir = {'none': None, 'same': 'tmp', 'exdev': 'tmp', 'realxdev': XPLACE}[tmp]
+    tmpdir = {'none': None, 'same': 'tmp', 'exdev': 'tmp', 'realxdev': XPLACE, 'registry': 'data/tmp'}[tmp]
     cfg = [[] if tmpdir is None else [tmpdir], tmp in ('exdev', 'realxdev'),
            [] if s['backupDir'] is None else [s['backupDir']], s['mbis'], s['aeo'],
            [link_target(inp)] if inp.get('link') else []]
@@ -745,7 +799,7 @@ def evaluate(ctx, cases, limit=40, kind_prefix=''):
                     ops.append([1] if o[0] == 'close' else [2])
             ops.append([2])
         else:
-            ops.append([1])
+            ops += [[1] if m == 'close' else [2] for m in log['info'].get('calls', ['close'])]
         fs0 = [] if r['old'] is None else [[wire_bytes(link_target(c) if c.get('link') else fn), wire_bytes(r['old'])]]
         n = len(log['events'])
         pts = [tuple(c['crash'][:2])] if c.get('crash') else crash_points(ctx, log['events'], limit)
@@ -794,14 +848,16 @@ def evaluate(ctx, cases, limit=40, kind_prefix=''):
                 check_disk(ctx, c, info, r, info['n'], None, True)
         # direct oracle on the complete run: the save worked (or was legitimately refused)
         full = dict(c, crash=None)
-        ends_close = c['caller'] != 'raw' or (c['ops'] and c['ops'][-1][0] == 'close' and
-                                                 all(o[0] == 'w' for o in c['ops'][:-1]))
+        calls = log['info'].get('calls', [])
+        ends_close = (calls[:1] == ['close']) if c['caller'] != 'raw' else (
+            c['ops'] and c['ops'][-1][0] == 'close' and all(o[0] == 'w' for o in c['ops'][:-1]))
         if ends_close:
             refused = (new == '' and r['old'] is not None and not aeo)
             want = r['old'] if refused else new
             if final != want:
                 ctx.fail(full, 'complete save left %s instead of the %s version' % (short(final), 'old' if refused else 'new'))
-        elif c['caller'] == 'raw' and c['ops'] and c['ops'][-1][0] == 'rollback' and all(o[0] == 'w' for o in c['ops'][:-1]):
+        elif (c['caller'] != 'raw' and calls[:1] == ['rollback']) or (
+                c['caller'] == 'raw' and c['ops'] and c['ops'][-1][0] == 'rollback' and all(o[0] == 'w' for o in c['ops'][:-1])):
             if final != r['old']:
                 ctx.fail(full, 'rollback changed the target: %s' % short(final))
             if not info.get('nomodel') and log['info']['sessions'][0]['temp'] in r['files']:
@@ -990,6 +1046,16 @@ CORPUS += [
     db_case('userdata', None, {'n': 1, 'v': 2}, link=True),
 ]
 
+# the production defaults of conf.py: tmpDir/backupDir are registry values forced at every AtomicFile()
+CORPUS += [
+    raw_case('long old content ' * 4, ['short\n'], tmp='registry', backup='dir', chunk=16),
+    raw_case(None, ['first\n'], tmp='registry', backup='devnull'),
+    db_case('users', {'n': 2, 'v': 1}, {'n': 1, 'v': 2}, tmp='registry', backup='dir', chunk=64),
+    db_case('registry', {'n': 0, 'v': 1}, {'n': 0, 'v': 2}, tmp='registry', backup='dir'),
+    db_case('chanuserdb', {'n': 3, 'v': 1}, {'n': 1, 'v': 2}, tmp='registry', backup='dir'),
+    db_case('chanuserdb', {'n': 2, 'v': 1}, {'n': 0, 'v': 2}),       # an emptied ChannelUserDB rolls back ("refusing to write blank file")
+]
+
 TMPS = ['none', 'same', 'exdev', 'realxdev']
 BACKUPS = ['none', 'dir', 'devnull']
 
@@ -1088,6 +1154,115 @@ def check_loader_table(ctx, only=None):
         shutil.rmtree(base, True)
 
 
+# --------------------------------------------------------------------------
+# dbi.FlatfileMapping.add: the in-place writer (fixed finding C17.F47).  Fault points = before/after every method call
+# on the file object add() works with; a kill there, then a restart.
+FLAT_ADD_CASES = [{'op': 'flat-add', 'n': 2, 'removed': 0, 'rec': 'third record'},
+                  {'op': 'flat-add', 'n': 0, 'removed': 0, 'rec': 'first: with colon'},
+                  {'op': 'flat-add', 'n': 3, 'removed': 2, 'rec': 'caf\xe9'},
+                  {'op': 'flat-add', 'n': 1, 'removed': 1, 'rec': ''}]
+
+
+def _flat_parse(path):
+    lines = open(path, encoding='utf8').read().split('\n')
+    recs = [l.split(':', 1) for l in lines[1:] if l and not l.startswith('-')]
+    return int(lines[0]), [(int(i), t) for i, t in recs]
+
+
+def _flat_run(base, case, crash):
+    """prepare the old file, run add(rec) in a child (killed at `crash` = (call index, side) or None); returns
+    (calls made, parsed file, records after a restart, ids after one more add)"""
+    import supybot.dbi as dbi
+    fn = os.path.join(base, 'flat_%d.db' % os.getpid())
+    if os.path.exists(fn):
+        os.remove(fn)
+    db = dbi.FlatfileMapping(fn)
+    ids = [db.add('record %d' % i) for i in range(case['n'])]
+    for i in ids[:case['removed']]:
+        db.remove(i)
+    old = _flat_parse(fn)
+    r, w = os.pipe()
+    pid = os.fork()
+    if pid == 0:
+        n = [0]
+        real = builtins.open
+
+        class Proxy(object):
+            def __init__(self, f):
+                self.__dict__['_f'] = f
+
+            def __getattr__(self, name):
+                attr = getattr(self._f, name)
+                if not callable(attr):
+                    return attr
+
+                def call(*a, **k):
+                    if crash == (n[0], 'before'):
+                        os._exit(77)
+                    res = attr(*a, **k)
+                    n[0] += 1
+                    if crash == (n[0] - 1, 'after'):
+                        os._exit(77)
+                    return res
+                return call
+
+        def o(file, mode='r', *a, **k):
+            f = real(file, mode, *a, **k)
+            return Proxy(f) if (file == fn and '+' in mode) else f
+        dbi.open = o
+        try:
+            db.add(case['rec'])
+            os.write(w, str(n[0]).encode())
+        finally:
+            os._exit(0)
+    os.close(w)
+    out = os.read(r, 64)
+    os.close(r)
+    os.waitpid(pid, 0)
+    disk = _flat_parse(fn)
+    db2 = dbi.FlatfileMapping(fn)             # the restart
+    recs = list(db2)
+    db2.add('the add after the restart')
+    after = [i for i, _ in db2]
+    os.remove(fn)
+    return (int(out) if out else None), old, disk, recs, after
+
+
+def check_flat_add(ctx, only=None):
+    d = boot.boot()
+    for case in ([only] if only else FLAT_ADD_CASES):
+        base = dict((k, case[k]) for k in ('op', 'n', 'removed', 'rec'))
+        ncalls, old, final, _, _ = _flat_run(d, base, None)
+        want_recs = old[1] + [(old[0], base['rec'])]
+        if final != (old[0] + 1, want_recs):
+            ctx.fail(dict(base, crash=None), 'add() left %r, expected next id %d and records %r' % (final, old[0] + 1, want_recs))
+        pts = [tuple(case['crash'])] if case.get('crash') else [(i, sd) for i in range(ncalls or 0) for sd in ('before', 'after')]
+        mstates = ctx.model([[6, [old[0], [[i, t] for i, t in old[1]], base['rec'], k]] for k in (0, 1, 2)])
+        seen = []
+        for pt in pts:
+            inp = dict(base, crash=list(pt))
+            ctx.case('flat-add/' + pt[1], inp)
+            _, _, disk, recs, after = _flat_run(d, base, pt)
+            if not seen or seen[-1] != disk:
+                seen.append(disk)
+            # the property on the implementation: old or new records, and no id is ever handed out twice
+            if recs not in (old[1], want_recs):
+                ctx.fail(inp, 'after a kill %s call %d of add() the records are %r: neither the old nor the new ones' % (pt[1], pt[0], recs))
+            elif len(set(after)) != len(after):
+                ctx.fail(inp, 'after a kill %s call %d of FlatfileMapping.add() the file is %r: the restarted bot hands out id %d twice '
+                              '(ids %r); get()/remove() of that id then hit the wrong / both records'
+                         % (pt[1], pt[0], disk, max(after, key=after.count), after))
+        if not case.get('crash') and all(m is not None and not isinstance(m, tuple) for m in mstates):
+            from lib import wire
+            model_seq = []
+            for m in mstates:
+                st = (m[0], [(kv[0], wire.s(kv[1])) for kv in m[1]])
+                if not model_seq or model_seq[-1] != st:
+                    model_seq.append(st)
+            if model_seq != seen:
+                ctx.disagree(dict(base, crash=None), model_seq, seen, 'sequence of on-disk states of FlatfileMapping.add over all kill points')
+
+
 def run(ctx):
     boot.boot()
     import supybot.ircdb, supybot.dbi, supybot.world  # noqa: F401  (before forking)
@@ -1120,6 +1295,7 @@ def run(ctx):
         big.append(db_case('registry', {'n': 1, 'v': 1}, {'n': 1, 'v': 2}, tmp='exdev', backup='none', chunk=20000))
     evaluate(ctx, big, limit=24 if ctx.scale == 1 else 120, kind_prefix='full-')
     check_loader_table(ctx)
+    check_flat_add(ctx)
 
 
 CLASSES = {'tmpdir_other_fs': lambda inp: inp.get('tmp') in ('exdev', 'realxdev') and
@@ -1130,6 +1306,10 @@ def replay(ctx, inp):
     boot.boot()
     import supybot.ircdb, supybot.dbi, supybot.world  # noqa: F401
     sub = type(ctx)(ctx.pid, ctx.tier, ctx.seed, {'model_ok': False})
+    if inp.get('op') == 'flat-add':
+        import supybot.dbi  # noqa: F401
+        check_flat_add(sub, only=inp)
+        return sub.failures[0]['detail'] if sub.failures else None
     if inp.get('op') in ('empty-file', 'flat-load'):
         check_loader_table(sub, only=inp)
         return sub.failures[0]['detail'] if sub.failures else None
